@@ -15,9 +15,9 @@ type Program struct {
 	// step was applied (a second child of the same parent, created before the first child logs).
 	Sibling *Step
 	Steps   []Step
-	Entry    Entry
-	Fields   []Field
-	Final    Final
+	Entry   Entry
+	Fields  []Field
+	Final   Final
 }
 
 func (p Program) String() string {
